@@ -222,7 +222,7 @@ fn cfg_args(single: bool, read_only: bool) -> Vec<&'static str> {
 }
 
 /// one sequence against a fresh server. Returns (verdict clause or None, detail)
-fn run_sequence(single: bool, read_only: bool, seq: &[(usize, bool)], alpha: &[(String, Vec<u8>)], after_transfer: bool) -> Result<Option<(String, String)>, String> {
+fn run_sequence(single: bool, read_only: bool, seq: &[(usize, bool)], alpha: &[(String, Vec<u8>)], after_transfer: bool) -> Result<(Option<(String, String)>, String), String> {
     let mut p = spawn_tftpd(&cfg_args(single, read_only), false)?;
     let s1 = udp_client(false);
     let s2 = udp_client(false);
@@ -296,7 +296,31 @@ fn run_sequence(single: bool, read_only: bool, seq: &[(usize, bool)], alpha: &[(
             verdict = Some((clause.to_string(), format!("process alive but the canonical RRQ fails twice: {e}; {e2}")));
         }
     }
-    Ok(verdict)
+    // what the server said to the hostile datagrams themselves (outcome class only; the vacuity guard of the evidence)
+    let mut said = String::new();
+    for s in [&s1, &s2] {
+        let _ = s.set_nonblocking(true);
+        let mut buf = vec![0u8; 2048];
+        let mut kinds: Vec<String> = vec![];
+        while let Ok((n, _)) = s.recv_from(&mut buf) {
+            let k = match rc::decode(&buf[..n]) {
+                Ok(RPacket::Error { code, .. }) => format!("ERROR{code}"),
+                Ok(RPacket::Data { .. }) => "DATA".to_string(),
+                Ok(RPacket::Oack(_)) => "OACK".to_string(),
+                Ok(RPacket::Ack(_)) => "ACK".to_string(),
+                _ => "other".to_string(),
+            };
+            if kinds.last() != Some(&k) {
+                kinds.push(k);
+            }
+            if kinds.len() > 6 {
+                break;
+            }
+        }
+        said.push_str(&kinds.join(","));
+        said.push('|');
+    }
+    Ok((verdict, said))
 }
 
 pub fn cell(spec: &Value) -> Value {
@@ -340,10 +364,10 @@ pub fn cell(spec: &Value) -> Value {
         let names: Vec<String> = seq.iter().map(|(i, o)| format!("{}{}", alpha[*i].0, if *o { " (2nd source)" } else { "" })).collect();
         match r {
             Err(e) => c.machinery_errors.push(format!("C05 sequence {:?}: {e}", names)),
-            Ok(None) => {
-                outcomes.insert(1);
+            Ok((None, said)) => {
+                outcomes.insert(fnv64(said.as_bytes()));
             }
-            Ok(Some((clause, detail))) => {
+            Ok((Some((clause, detail)), _)) => {
                 outcomes.insert(fnv64(clause.as_bytes()));
                 c.violations.push(Violation {
                     property: "C05".into(),
